@@ -474,7 +474,7 @@ Proof.
   unfold spec_first_data in Hfd. unfold TWO32 in *.
   rewrite checked_add32_some by (unfold U32_MAX; lia).
   replace ((g_reserved g =? 0) || (g_nfats g =? 0)) with false
-    by (symmetry; apply Bool.orb_false_iff; split; apply N.eqb_neq; [lia|destruct Hnf as [<-|[<-|[]]]; discriminate]).
+    by (symmetry; apply Bool.orb_false_iff; split; apply N.eqb_neq; lia).
   replace (g_fat_size g * 512 <? (n_clusters g + 2) * match (if is_fat32 g then Fat32 else Fat16) with Fat16 => 2 | Fat32 => 4 end)
     with false by (symmetry; apply N.ltb_ge; destruct (is_fat32 g); lia).
   assert (Hsec : (if g_nfats g =? 2 then let! s := add32 (g_reserved g) (g_fat_size g) in Ok (Some s) else Ok None)
@@ -766,12 +766,33 @@ Definition ex32 : geom :=
 Definition ex_edge : geom :=
   mkGeom 3 0 6 4294963144 4152 4152 true 1 1 2 17 512 0 0 0 248 63 0 0 (fun _ => 32).
 
+(* BPB_NumFATs is a byte and the specification asks for "at least 1": three FAT copies, and the maximum
+   of 255 copies (17 blocks each), in front of the same 512 root entries and 4085 one-block clusters *)
+Definition ex_fats3 : geom :=
+  mkGeom 0 0 6 63 5000 4169 true 1 1 3 17 512 0 0 0 248 63 0 0 (fun _ => 32).
+Definition ex_fats255 : geom :=
+  mkGeom 2 0 6 2048 9000 8453 true 1 1 255 17 512 0 0 0 248 2048 0 0 (fun _ => 32).
+
 Lemma ex16_valid : valid_geom ex16.
 Proof. apply valid_geomb_spec. vm_compute. reflexivity. Qed.
 Lemma ex32_valid : valid_geom ex32.
 Proof. apply valid_geomb_spec. vm_compute. reflexivity. Qed.
 Lemma ex_edge_valid : valid_geom ex_edge.
 Proof. apply valid_geomb_spec. vm_compute. reflexivity. Qed.
+
+Lemma ex_fats3_valid : valid_geom ex_fats3.
+Proof. apply valid_geomb_spec. vm_compute. reflexivity. Qed.
+Lemma ex_fats255_valid : valid_geom ex_fats255.
+Proof. apply valid_geomb_spec. vm_compute. reflexivity. Qed.
+(* no second-FAT record (the count is not 2); the root directory and the data area lie behind ALL copies *)
+Lemma ex_fats3_mounts :
+  mount (format ex_fats3) 0 =
+  Ok (mkVolume 63 5000 [32;32;32;32;32;32;32;32;32;32;32] 1 84 1 None None None 4085 (Fat16Info 52 512)).
+Proof. vm_compute. reflexivity. Qed.
+Lemma ex_fats255_mounts :
+  mount (format ex_fats255) 2 =
+  Ok (mkVolume 2048 9000 [32;32;32;32;32;32;32;32;32;32;32] 1 4368 1 None None None 4085 (Fat16Info 4336 512)).
+Proof. vm_compute. reflexivity. Qed.
 
 Lemma ex16_mounts :
   mount (format ex16) 0 =
